@@ -21,7 +21,7 @@ func init() {
 			"(1) path == \"\" returns the viper getter of the base key; (2) otherwise key = path + \".\" + K' with K' equal to the base key; (3) the presence test and the returned getter read that same key, and the presence test can tell a set zero value from an unset one where zero is a legitimate setting (bool/int); " +
 			"(4) the fallback is strings.LastIndex(path, \".\"): -1 -> self(\"\"), else self(path[0:i]) with exactly that i, and the callee is the function itself; (5) there is no other return. " +
 			"By induction on the number of path components (the reader's step, recorded in DESIGN.md) a function of shape T returns the value at the longest prefix that has one, else the base value. " +
-			"Added with the third seeding round: (5) no configuration read outside the hierarchical getters names <path>.<hierarchical variable> directly. Added with the fourth seeding round: (6) the global log level is trace; (7) a top-level key with an absence fallback is not a registered flag. NOT decided: viper's own merging of flags/env/file; what 'present' means for a zero duration (visible, not judged).",
+			"Added with the third seeding round: (5) no configuration read outside the hierarchical getters names <path>.<hierarchical variable> directly. Added with the fourth seeding round: (6) the global log level is trace; (7) a top-level key with an absence fallback is not a registered flag. Added with the fifth seeding round: (8) one function does not hand the same configuration path to two different component requests on one path, and a path built at run time starts with a literal component. NOT decided: viper's own merging of flags/env/file; what 'present' means for a zero duration (visible, not judged).",
 		Technique: "template conformance of sibling functions on SSA: constant-format extraction, provenance of getter keys, guard/edge-deletion for the presence and fallback tests, self-call resolution",
 		Rule:      "5 clauses per hierarchical getter; the set of getters is discovered by role (self-recursive exported functions of util with a string path parameter)",
 	})
@@ -252,6 +252,105 @@ func runC19(p *core.Prog, r *core.Report, tier string) {
 	}
 	r.Floor("C19.7 flag registrations", nFlags, 5)
 	r.Floor("C19.7 top-level keys with an absence fallback", len(optional), 1)
+
+	// ---- (8) every component asks with its own, well-formed path: (a) a path that is built at run time has a literal
+	// first component ("eth2client.%s"), so an empty part cannot yield "a.b." or ".x" (which silently skips the most
+	// specific level); (b) within one function no two requests of the same kind use the same constant path (the
+	// copy-paste slip that configures one component from its sibling's subtree) ----
+	takesPath := func(callee *ssa.Function) int {
+		if callee == nil {
+			return -1
+		}
+		org := callee
+		if o := callee.Origin(); o != nil {
+			org = o
+		}
+		if isGetter[org] {
+			for i, prm := range org.Params {
+				if prm.Name() == "path" {
+					return i
+				}
+			}
+			return -1
+		}
+		// a function of the program that forwards a string parameter named path to a getter
+		for i, prm := range callee.Params {
+			if prm.Name() != "path" {
+				continue
+			}
+			fwd := false
+			core.EachInstr(callee, func(in ssa.Instruction) {
+				if c, ok := in.(*ssa.Call); ok {
+					g := c.Call.StaticCallee()
+					if g != nil && (isGetter[g] || g.Origin() != nil && isGetter[g.Origin()]) {
+						for _, a := range c.Call.Args {
+							if a == ssa.Value(prm) {
+								fwd = true
+							}
+						}
+					}
+				}
+			})
+			if fwd {
+				return i
+			}
+		}
+		return -1
+	}
+	nPathArgs, nDyn := 0, 0
+	for _, f := range p.SrcFuncs() {
+		top := f
+		for top.Parent() != nil {
+			top = top.Parent()
+		}
+		if isGetter[top] {
+			continue
+		}
+		seen := map[string]token.Pos{}
+		seenAt := map[string]ssa.Instruction{}
+		core.EachInstr(f, func(in ssa.Instruction) {
+			c, ok := in.(*ssa.Call)
+			if !ok {
+				return
+			}
+			callee := c.Call.StaticCallee()
+			pi := takesPath(callee)
+			if pi < 0 || pi >= len(c.Call.Args) {
+				return
+			}
+			nPathArgs++
+			a := c.Call.Args[pi]
+			org := callee
+			if o := callee.Origin(); o != nil {
+				org = o
+			}
+			if k, ok := constString(a); ok {
+				if k == "" {
+					return
+				}
+				key := org.String() + "|" + k
+				if prev, dup := seen[key]; dup && (core.PathQuery{Fn: f, From: seenAt[key], Target: func(x ssa.Instruction) bool { return x == in }}).Find() != nil {
+					r.Violate("C19.8", fmt.Sprintf("%s|same-path-twice|%s|%s", core.FnKey(f), org.Name(), k), p.Pos(c.Pos()), "the path "+k+" is used for two different requests to "+org.Name()+" in one function (first at "+p.Pos(prev)+"): one of the two components is configured from its sibling's subtree and ignores its own")
+				}
+				seen[key] = c.Pos()
+				seenAt[key] = in
+				return
+			}
+			if _, isParam := a.(*ssa.Parameter); isParam {
+				return
+			}
+			nDyn++
+			okForm := false
+			if sp, ok := a.(*ssa.Call); ok && strings.HasSuffix(core.CalleeName(&sp.Call), "fmt.Sprintf") {
+				if format, ok := constString(sp.Call.Args[0]); ok {
+					first := strings.SplitN(format, ".", 2)[0]
+					okForm = first != "" && !strings.Contains(first, "%") && !strings.HasSuffix(format, ".")
+				}
+			}
+			r.Check(okForm, "C19.8", fmt.Sprintf("%s|path-form#%d", core.FnKey(f), nDyn), p.Pos(c.Pos()), "a path built at run time starts with a literal component", "the path handed to "+org.Name()+" is "+ds.D(a).String()+": with an empty part it becomes a path with an empty component (\"a.b.\"), for which the most specific level is silently skipped")
+		})
+	}
+	r.Floor("C19.8 path arguments outside the getters", nPathArgs, 30)
 
 	r.Floor("C19.5 hierarchical variables", len(vlist), 4)
 	r.Floor("C19.5 configuration reads swept", nReads, 20)
